@@ -13,7 +13,7 @@ def opFromStr (s : String) : Option (BinOp × OpForm) :=
   if s.endsWith "Assign" then (BinOp.fromStr (s.dropEnd 6).toString).map (·, .assign)
   else (BinOp.fromStr s).map (·, .binary)
 
-def opTraitPath (o : BinOp) (f : OpForm) : Toks :=
+def opTraitPath (o : BinOp) (f : OpForm) : GToks :=
   absPath ["core", "ops", o.str ++ (if f == .assign then "Assign" else "")]
 def opFunc (o : BinOp) (f : OpForm) : Tok := o.func ++ (if f == .assign then "_assign" else "")
 
@@ -33,10 +33,10 @@ def refType (t : Ty) : Ty := .ref none false t.parenIfPlus
 def refTypeWith (t : Ty) (isRef : Bool) : Ty := if isRef then refType t else t
 
 /-- `change_owned` -/
-def changeOwned (expr : Toks) (ty : Ty) (inputRef outputRef : Bool) : Toks :=
+def changeOwned (expr : GToks) (ty : Ty) (inputRef outputRef : Bool) : GToks :=
   match inputRef, outputRef with
-  | true, false => ufcs ty.toks (absPath ["core", "clone", "Clone"]) "clone" ++ paren expr
-  | false, true => "&" :: expr
+  | true, false => ufcs (U ty.toks) (absPath ["core", "clone", "Clone"]) "clone" +++ paren expr
+  | false, true => "&" ::: expr
   | _, _ => expr
 
 /-- one generated impl -/
@@ -136,42 +136,42 @@ def buildFwd (attr : Args) (i : ItemImpl) : R FwdImpl :=
            rhs := (toRefElem i.rhsOrig).1, rhsIsRef := (toRefElem i.rhsOrig).2,
            output := p.output, items := p.items }
 
-def FwdImpl.renderItem (f : FwdImpl) : FwdItem → Toks
+def FwdImpl.renderItem (f : FwdImpl) : FwdItem → GToks
   | .binary implL implR =>
     let bt := opTraitPath f.op .binary
     let bf := opFunc f.op .binary
-    let implThis := (refTypeWith f.this implL).toks
-    let implRhs := (refTypeWith f.rhs implR).toks
-    let l := (refTypeWith f.this f.thisIsRef).toks
-    let r := (refTypeWith f.rhs f.rhsIsRef).toks
+    let implThis := U (refTypeWith f.this implL).toks
+    let implRhs := U (refTypeWith f.rhs implR).toks
+    let l := U (refTypeWith f.this f.thisIsRef).toks
+    let r := U (refTypeWith f.rhs f.rhsIsRef).toks
     let lExpr := changeOwned ["self"] f.this implL f.thisIsRef
     let rExpr := changeOwned ["__rhs"] f.rhs implR f.rhsIsRef
-    implItem autoDerived f.generics.implToks (bt ++ angle implRhs) implThis f.generics.whereToks
-      (["type", "Output", "="] ++ (f.output.getD .never).toks ++ [";", "fn", bf] ++
-        paren (["self", ",", "__rhs", ":"] ++ implRhs) ++ ["->", "Self", "::", "Output"] ++
-        brace (ufcs l (bt ++ angle r) bf ++ paren (lExpr ++ "," :: rExpr)))
+    implItem autoDerived (U f.generics.implToks) (bt +++ angle implRhs) implThis (U f.generics.whereToks)
+      (["type", mem "Output", "="] +++ U (f.output.getD .never).toks +++ [";", "fn", mem bf] +++
+        paren (["self", ",", "__rhs", ":"] +++ implRhs) +++ ["->", "Self", "::", mem "Output"] +++
+        brace (ufcs l (bt +++ angle r) bf +++ paren (lExpr +++ "," ::: rExpr)))
   | .assign rhs callL =>
     let bt := opTraitPath f.op .binary
     let bf := opFunc f.op .binary
     let at_ := opTraitPath f.op .assign
     let af := opFunc f.op .assign
-    let l := (refTypeWith f.this callL).toks
+    let l := U (refTypeWith f.this callL).toks
     let lExpr := changeOwned ["self"] f.this true callL
-    implItem autoDerived f.generics.implToks (at_ ++ angle rhs.toks) f.this.toks f.generics.whereToks
-      (["fn", af] ++ paren (["&", "mut", "self", ",", "__rhs", ":"] ++ rhs.toks) ++
-        brace (["*", "self", "="] ++ ufcs l (bt ++ angle rhs.toks) bf ++ paren (lExpr ++ [",", "__rhs"])))
+    implItem autoDerived (U f.generics.implToks) (at_ +++ angle (U rhs.toks)) (U f.this.toks) (U f.generics.whereToks)
+      (["fn", mem af] +++ paren (["&", "mut", "self", ",", "__rhs", ":"] +++ U rhs.toks) +++
+        brace (["*", "self", "="] +++ ufcs l (bt +++ angle (U rhs.toks)) bf +++ paren (lExpr +++ [",", "__rhs"])))
   | .binFromAssign =>
     let bt := opTraitPath f.op .binary
     let bf := opFunc f.op .binary
     let at_ := opTraitPath f.op .assign
     let af := opFunc f.op .assign
-    let this := f.thisOrig.toks
-    let rhs := f.rhsOrig.toks
-    implItem autoDerived f.generics.implToks (bt ++ angle rhs) this f.generics.whereToks
-      (["type", "Output", "="] ++ this ++ [";", "fn", bf] ++ paren (["mut", "self", ",", "__rhs", ":"] ++ rhs) ++
-        ["->", "Self", "::", "Output"] ++
-        brace (ufcs this (at_ ++ angle rhs) af ++ paren ["&", "mut", "self", ",", "__rhs"] ++ [";", "self"]))
+    let this := U f.thisOrig.toks
+    let rhs := U f.rhsOrig.toks
+    implItem autoDerived (U f.generics.implToks) (bt +++ angle rhs) this (U f.generics.whereToks)
+      (["type", mem "Output", "="] +++ this +++ [";", "fn", mem bf] +++ paren (["mut", "self", ",", "__rhs", ":"] +++ rhs) +++
+        ["->", "Self", "::", mem "Output"] +++
+        brace (ufcs this (at_ +++ angle rhs) af +++ paren ["&", "mut", "self", ",", "__rhs"] +++ [";", "self"]))
 
-def FwdImpl.render (f : FwdImpl) : List Toks := f.items.map f.renderItem
+def FwdImpl.render (f : FwdImpl) : List GToks := f.items.map f.renderItem
 
 end DX
